@@ -74,7 +74,7 @@ func shapeAV(st *types.Struct, k int) an.AV {
 }
 
 func C20(p *an.Prog, r *an.Report) {
-	r.Explanation = "Nil-state abstract interpretation: every exported argument-free method (declared or promoted) of every exported named type of the library is evaluated path-sensitively on the type's zero value (value receiver: the zero struct; pointer receiver: a pointer to it), with library callees explored in place, known-zero lengths and nil-ness folded through every branch, and unknown conditions followed both ways. Any instruction that must panic on an explored path — dereference of a nil pointer, field access through nil, index or non-empty slice of an empty slice, write to a nil map, method call on a nil interface, type assertion on nil, explicit panic — is reported with the path. The same evaluation is repeated on prefix shapes of each wire structure (first k fields set to non-nil unknowns, the rest zero), the values a parser hands back together with an error when it stops after k fields. Verify*/VerifySignature methods must not report success on the zero value. Enumeration is exhaustive over (type, method) pairs and shapes; methods with parameters and behaviour of dependencies on nil are not covered."
+	r.Explanation = "Nil-state abstract interpretation: every exported argument-free method (declared or promoted) of every exported named type of the library is evaluated path-sensitively on the type's zero value (value receiver: the zero struct; pointer receiver: a pointer to it), with library callees explored in place, known-zero lengths and nil-ness folded through every branch, and unknown conditions followed both ways. Any instruction that must panic on an explored path — dereference of a nil pointer, field access through nil, index or non-empty slice of an empty slice, write to a nil map, method call on a nil interface, type assertion on nil, explicit panic — is reported with the path. The same evaluation is repeated on prefix shapes of each wire structure (first k fields set to non-nil unknowns, the rest zero), the values a parser hands back together with an error when it stops after k fields. Verify*/VerifySignature methods must not report success on the zero value. Enumeration is exhaustive over (type, method) pairs and shapes; methods with parameters and behaviour of dependencies on nil are not covered. Z4: pointer slices returned early from their fill loop are append-built (never preallocated with nil elements)."
 	r.Rule = "one obligation per (type, method) on the zero value, one per (type, method, prefix length) for wire structures; non-trivial = the method has a body with at least one branch or call"
 	r.Trusted = []string{"go/ssa; external calls return unknown (never reported) values"}
 	r.Exhaustive = true
